@@ -6,7 +6,7 @@
    sanity check, the three Merkle roots, chain lookups.  Crypto results are data carried by the header / tx views. *)
 From Coq Require Import List NArith ZArith Bool Lia.
 From Verif Require Import Common.Util Common.GoInt Sched.Model Gen.GasLimit GenProofs.GasLimitProofs BaseFee.Model
-     Header.Rules Header.Proofs Validation.Body Validation.Catalogue Validation.ProofsRules.
+     Header.Rules Header.Proofs Validation.Body Validation.Catalogue Validation.ProofsRules Validation.RuleCheck.
 Import ListNotations.
 Open Scope N_scope.
 
@@ -39,24 +39,37 @@ Section C02.
   Notation all_rules := (all_rules State exec apply_updates rewards sanity root_of_state root_of_receipts root_of_txs has_tx find_meta).
   Notation import := (import State exec apply_updates rewards sanity root_of_state root_of_receipts root_of_txs has_tx find_meta).
 
-  (* 2. a block is accepted iff every rule of the catalogue holds *)
-  Theorem accept_iff_rules cfg pv parent st0 b now : wf_gas parent b ->
+  (* 2. a block is accepted iff every rule of the catalogue holds (block interval > 0, gas limits < 2^64).
+        For rules 11, 22, 23, 41-47 the catalogue uses the same Gallina functions as the validator model (base-fee
+        formula, scheduler updates/score, leader beneficiary, plain sequential run): for those the iff relates the ORDER and
+        SHAPE of the checks to the rule, not two independent formulas; rule 21 is stated through C05's slot owner. *)
+  Theorem accept_iff_rules cfg pv parent st0 b now : 0 < c_interval cfg -> wf_gas parent b ->
     (exists st rcs, process cfg pv parent st0 b now = Accepted State st rcs) <-> all_rules cfg pv parent st0 b now.
   Proof. exact (accept_iff_rules_lemma State exec apply_updates rewards sanity root_of_state root_of_receipts root_of_txs has_tx find_meta cfg pv parent st0 b now). Qed.
 
-  (* 3. exactly one rule broken (all crypto-report rules included among "the others", i.e. the block is correctly
-        re-signed) => rejected with a consensus-critical error; the three rules whose breach the code reports with a
-        different class (3: future block, 41: a transaction does not execute, 46: reward hook fails) are excluded *)
+  (* 3a. ANY breach — one rule or several, whatever the mutation — of a block that is not from the future (rule 3) and
+         whose transactions and reward hook execute (rules 41, 46) is rejected with a consensus-critical error *)
+  Theorem rule_breach_rejected_critical cfg pv parent st0 b now :
+    0 < c_interval cfg -> wf_gas parent b -> parent_sane cfg parent ->
+    ~ all_rules cfg pv parent st0 b now ->
+    rule_holds cfg pv parent st0 b now 3 -> rule_holds cfg pv parent st0 b now 41 -> rule_holds cfg pv parent st0 b now 46 ->
+    exists r, process cfg pv parent st0 b now = Rejected State (Critical r).
+  Proof. exact (rule_breach_rejected_critical_lemma State exec apply_updates rewards sanity root_of_state root_of_receipts root_of_txs has_tx find_meta cfg pv parent st0 b now). Qed.
+
+  (* 3b. exactly one rule broken (all others, incl. the crypto-report rules 7, 8, 20: "correctly re-signed") => consensus-
+         critical, except the three rules the code classes otherwise (3 future, 41 non-executable tx, 46 reward hook).
+         The catalogue's rules are independent enough for this to be satisfiable for every rule family of the property's
+         mutation list: see the Examples below (one concrete mutant per family with EXACTLY that rule failing). *)
   Theorem single_mutation_rejected cfg pv parent st0 b now i :
-    wf_gas parent b -> parent_sane cfg parent ->
+    0 < c_interval cfg -> wf_gas parent b -> parent_sane cfg parent ->
     ~ rule_holds cfg pv parent st0 b now i ->
     (forall j, j <> i -> rule_holds cfg pv parent st0 b now j) ->
     non_critical_rule i = false ->
     exists r, process cfg pv parent st0 b now = Rejected State (Critical r).
   Proof. exact (single_mutation_rejected_lemma State exec apply_updates rewards sanity root_of_state root_of_receipts root_of_txs has_tx find_meta cfg pv parent st0 b now i). Qed.
 
-  (* 4. every rejection is critical, or names the non-critical rule that failed; validation of a child of a sane
-        parent never panics *)
+  (* 4. every rejection is critical, or names the non-critical rule that failed; the model's panic sites (CalcBaseFee's nil
+        dereference and division by zero) are unreachable for a child of a sane parent *)
   Theorem reject_class cfg pv parent st0 b now v : parent_sane cfg parent ->
     process cfg pv parent st0 b now = Rejected State v ->
     match v with
@@ -67,49 +80,225 @@ Section C02.
     end.
   Proof. exact (process_reject_class State exec apply_updates rewards sanity root_of_state root_of_receipts root_of_txs has_tx find_meta cfg pv parent st0 b now v). Qed.
 
-  (* 5. a rejected import leaves the repository exactly as it was; an accepted one adds exactly that block *)
-  Theorem rejected_leaves_no_trace cfg pv parent st0 rp b now conflicts best rp' v :
-    import cfg pv parent st0 rp b now conflicts best = (rp', Rejected State v) -> rp' = rp.
-  Proof. exact (rejected_leaves_no_trace_lemma State exec apply_updates rewards sanity root_of_state root_of_receipts root_of_txs has_tx find_meta cfg pv parent st0 rp b now conflicts best rp' v). Qed.
+  (* 4b. parent_sane is an invariant of accepted chains (below the uint64 wrap of gasLimit*75): a header that passed the
+         header rules as a child of its own parent is a sane parent *)
+  Theorem accepted_parent_sane cfg gp parent now :
+    header_rules cfg gp parent now -> h_number parent = h_number gp + 1 -> h_number parent + 1 < 4294967296 ->
+    (Z.of_N (h_gas_limit parent) <= max_nowrap_gas_limit)%Z -> parent_sane cfg parent.
+  Proof. exact (accepted_parent_is_sane State apply_updates has_tx find_meta cfg gp parent now). Qed.
+
+  (* 5. REMARK (by the shape of executeAndCommitBlock in the model: every write is issued after cons.Process returned nil):
+        a rejected block issues no repository write and leaves the repository as it was.  On the implementation this
+        clause is TESTED (Process level and on a real node.Node), not proved. *)
+  Theorem rejected_leaves_no_trace cfg pv parent st0 rp b now conflicts known ps ba best rp' v :
+    import cfg pv parent st0 rp b now conflicts known ps ba best = (rp', Rejected State v) -> rp' = rp.
+  Proof. exact (rejected_leaves_no_trace_lemma State exec apply_updates rewards sanity root_of_state root_of_receipts root_of_txs has_tx find_meta cfg pv parent st0 rp b now conflicts known ps ba best rp' v). Qed.
 End C02.
 
-(* ---- non-vacuity: a concrete PoA-v2 block that satisfies every rule, and single mutations of it *)
+(* ================================================================ non-vacuity *)
+(* A concrete PoA-v2 parent and valid block, a post-GALACTICA / FINALITY-later variant, a PoS variant; for every rule family of
+   the property's mutation list a mutant on which EXACTLY that rule fails (every other catalogue rule holds), to which
+   single_mutation_rejected applies. *)
+Definition ex_exec (c : bctx) (st : N) (t : txn) : option (N * receipt) :=
+  if t_gas t <? 21000 then None else Some (st + t_id t, mkRc 21000 (t_id t =? 9009) 5).
+Definition ex_has (id _ : N) : bool := id =? 8000.                 (* tx 8000 is on the parent's chain *)
+Definition ex_meta (id : N) : option bool := if id =? 8000 then Some false else if id =? 8001 then Some true else None.
+Definition X_process cfg pv parent b now :=
+  process N ex_exec (fun _ _ st _ => st) (fun _ st => Some (st + 1)) (fun _ => true) (fun st => st)
+          (fun rs => N.of_nat (length rs)) (fun ts => N.of_nat (length ts)) ex_has ex_meta cfg pv parent 7 b now.
+Definition X_rule cfg pv parent b now :=
+  rule_holds N ex_exec (fun _ _ st _ => st) (fun _ st => Some (st + 1)) (fun _ => true) (fun st => st)
+             (fun rs => N.of_nat (length rs)) (fun ts => N.of_nat (length ts)) ex_has ex_meta cfg pv parent 7 b now.
+Definition X_check cfg pv parent b now i :=
+  forallb (fun j => (j =? i) || rule_b N ex_exec (fun _ _ st _ => st) (fun _ st => Some (st + 1)) (fun _ => true) (fun st => st)
+             (fun rs => N.of_nat (length rs)) (fun ts => N.of_nat (length ts)) ex_has ex_meta cfg pv parent 7 b now j) rule_ids.
+Definition exactly cfg pv parent b now i :=
+  ~ X_rule cfg pv parent b now i /\ (forall j, j <> i -> X_rule cfg pv parent b now j).
+
+Lemma exactly_intro cfg pv parent b now i v : 0 < c_interval cfg -> wf_gas parent b ->
+  X_check cfg pv parent b now i = true -> X_process cfg pv parent b now = Rejected N v -> exactly cfg pv parent b now i.
+Proof. intros HT W Hc Hp. exact (exactly_one_rule_fails_by_check N _ _ _ _ _ _ _ _ _ cfg pv parent 7 b now i v HT W Hc Hp). Qed.
+
+(* applying theorem 3b to such a mutant *)
+Lemma exactly_critical cfg pv parent b now i : 0 < c_interval cfg -> wf_gas parent b -> parent_sane cfg parent ->
+  exactly cfg pv parent b now i -> non_critical_rule i = false ->
+  exists r, X_process cfg pv parent b now = Rejected N (Critical r).
+Proof. intros HT W S [H1 H2] Hn. exact (single_mutation_rejected N _ _ _ _ _ _ _ _ _ cfg pv parent 7 b now i HT W S H1 H2 Hn). Qed.
+
+Ltac exact_fail := eapply exactly_intro; [reflexivity | split; reflexivity | vm_compute; reflexivity | vm_compute; reflexivity].
+
+(* ---- PoA v2, before FINALITY-independent forks; GALACTICA at 1000, FINALITY at 0 *)
 Definition ex_cfg := mkCfg 0 0 0 0 1000 10 39.
 Definition ex_parent := mkH 5 1000 10000000 0 0 50 0 1 777 0 (0, 0) false None 146 (Some 11) (Some (0, 0)).
 Definition ex_cands := [ mkC (mkP 11 true 0) 2 111 None; mkC (mkP 22 true 0) 1 222 None ].
 Definition ex_pv := mkPV false ex_cands 0 (fun _ => 0).
-Definition ex_tx := mkTx 9001 true false true false 39 4 32 0 0 false 21000 true None.
-Definition ex_exec (_ : bctx) (st : N) (t : txn) : option (N * receipt) := Some (st + t_id t, mkRc 21000 false 5).
-Definition ex_header := mkH 6 1010 10000000 222 21000 52 1 1 9008 1 (32, 777) true None 146 (Some 22) (Some (32, 4242)).
-Definition ex_block := mkB ex_header [ex_tx] None.
-Definition ex_process b now :=
-  process N ex_exec (fun _ _ st _ => st) (fun _ st => Some st) (fun _ => true) (fun st => st)
-          (fun rs => N.of_nat (length rs)) (fun ts => N.of_nat (length ts)) (fun _ _ => false) (fun _ => None)
-          ex_cfg ex_pv ex_parent 7 b now.
+Definition tx1 := mkTx 9001 true false true false 39 4 32 0 0 false 21000 true None.
+(* header: time gaslimit beneficiary gasused score txsroot features stateroot receiptsroot alpha com basefee siglen signer beta *)
+Definition hdr time gl ben gu score troot feat sroot rroot alpha com bf sl sg beta :=
+  mkH 6 time gl ben gu score troot feat sroot rroot alpha com bf sl sg beta.
+Definition ex_header := hdr 1010 10000000 222 21000 52 1 1 9008 1 (32, 777) true None 146 (Some 22) (Some (32, 4242)).
+Definition ex_block := mkB ex_header [tx1] None.
 
-Example ex_accepted : ex_process ex_block 1005 = Accepted N 9008 [mkRc 21000 false 5]
-  /\ wf_gas ex_parent ex_block /\ parent_sane ex_cfg ex_parent.
-Proof. split; [vm_compute; reflexivity|]. split; [split; vm_compute; reflexivity|]. split; [vm_compute; reflexivity | vm_compute; discriminate]. Qed.
+Example ex_accepted : X_process ex_cfg ex_pv ex_parent ex_block 1005 = Accepted N 9008 [mkRc 21000 false 5]
+  /\ wf_gas ex_parent ex_block /\ parent_sane ex_cfg ex_parent /\ 0 < c_interval ex_cfg.
+Proof. split; [vm_compute; reflexivity|]. split; [split; reflexivity|]. split; [split; [reflexivity | vm_compute; discriminate] | reflexivity]. Qed.
 
-(* timestamp one interval later (not the signer's slot), gas limit one beyond the bound, an expired transaction *)
-Example ex_mutants :
-  ex_process (mkB (mkH 6 1020 10000000 222 21000 52 1 1 9008 1 (32, 777) true None 146 (Some 22) (Some (32, 4242))) [ex_tx] None) 1015
-    = Rejected N (Critical 22) /\
-  ex_process (mkB (mkH 6 1010 10009766 222 21000 52 1 1 9008 1 (32, 777) true None 146 (Some 22) (Some (32, 4242))) [ex_tx] None) 1005
-    = Rejected N (Critical 6) /\
-  ex_process (mkB ex_header [mkTx 9001 true false true false 39 1 4 0 0 false 21000 true None] None) 1005
-    = Rejected N (Critical 37) /\
-  ex_process ex_block 999 = Rejected N Future /\
-  (* a wrong receipts root is accepted exactly when the correction table lists the recomputed root for this block *)
-  ex_process (mkB (mkH 6 1010 10000000 222 21000 52 1 1 9008 77 (32, 777) true None 146 (Some 22) (Some (32, 4242))) [ex_tx] (Some 1)) 1005
-    = Accepted N 9008 [mkRc 21000 false 5] /\
-  ex_process (mkB (mkH 6 1010 10000000 222 21000 52 1 1 9008 77 (32, 777) true None 146 (Some 22) (Some (32, 4242))) [ex_tx] None) 1005
-    = Rejected N (Critical 56).
-Proof. repeat split; vm_compute; reflexivity. Qed.
+(* every catalogue rule holds on the valid block (through accept_iff_rules) *)
+Example ex_all_rules : forall i, X_rule ex_cfg ex_pv ex_parent ex_block 1005 i.
+Proof.
+  apply (accept_iff_rules N _ _ _ _ _ _ _ _ _ ex_cfg ex_pv ex_parent 7 ex_block 1005); [reflexivity | split; reflexivity |].
+  eexists. eexists. vm_compute. reflexivity.
+Qed.
+
+Definition with_hdr h := mkB h [tx1] None.
+(* header family *)
+Example mut_time_equals_parent :       (* rule 1 *)
+  exactly ex_cfg ex_pv ex_parent (with_hdr (hdr 1000 10000000 222 21000 52 1 1 9008 1 (32, 777) true None 146 (Some 22) (Some (32, 4242)))) 1005 1.
+Proof. exact_fail. Qed.
+Example mut_time_off_interval :        (* rule 2 *)
+  exactly ex_cfg ex_pv ex_parent (with_hdr (hdr 1015 10000000 222 21000 52 1 1 9008 1 (32, 777) true None 146 (Some 22) (Some (32, 4242)))) 1005 2.
+Proof. exact_fail. Qed.
+Example mut_gas_limit_beyond_bound :   (* rule 6: parent/1024 = 9765 *)
+  exactly ex_cfg ex_pv ex_parent (with_hdr (hdr 1010 10009766 222 21000 52 1 1 9008 1 (32, 777) true None 146 (Some 22) (Some (32, 4242)))) 1005 6.
+Proof. exact_fail. Qed.
+Example mut_gas_limit_at_bound_is_valid :
+  X_process ex_cfg ex_pv ex_parent (with_hdr (hdr 1010 10009765 222 21000 52 1 1 9008 1 (32, 777) true None 146 (Some 22) (Some (32, 4242)))) 1005
+  = Accepted N 9008 [mkRc 21000 false 5].
+Proof. vm_compute. reflexivity. Qed.
+Example mut_alpha_wrong :              (* rule 8 *)
+  exactly ex_cfg ex_pv ex_parent (with_hdr (hdr 1010 10000000 222 21000 52 1 1 9008 1 (32, 778) true None 146 (Some 22) (Some (32, 4242)))) 1005 8.
+Proof. exact_fail. Qed.
+Example mut_vrf_proof_invalid :        (* rule 8 *)
+  exactly ex_cfg ex_pv ex_parent (with_hdr (hdr 1010 10000000 222 21000 52 1 1 9008 1 (32, 777) true None 146 (Some 22) None)) 1005 8.
+Proof. exact_fail. Qed.
+Example mut_features :                 (* rule 12 (the tx itself uses no feature) *)
+  exactly ex_cfg ex_pv ex_parent (with_hdr (hdr 1010 10000000 222 21000 52 1 0 9008 1 (32, 777) true None 146 (Some 22) (Some (32, 4242)))) 1005 12.
+Proof. exact_fail. Qed.
+(* proposer family *)
+Example mut_unauthorised_signer :      (* rule 20 *)
+  exactly ex_cfg ex_pv ex_parent (with_hdr (hdr 1010 10000000 222 21000 52 1 1 9008 1 (32, 777) true None 146 (Some 33) (Some (32, 4242)))) 1005 20.
+Proof. exact_fail. Qed.
+Example mut_other_master_signs :       (* rule 21: 11 is authorised, the slot is 22's *)
+  exactly ex_cfg ex_pv ex_parent (with_hdr (hdr 1010 10000000 222 21000 52 1 1 9008 1 (32, 777) true None 146 (Some 11) (Some (32, 4242)))) 1005 21.
+Proof. exact_fail. Qed.
+Example mut_score_plus_one :           (* rule 22 *)
+  exactly ex_cfg ex_pv ex_parent (with_hdr (hdr 1010 10000000 222 21000 53 1 1 9008 1 (32, 777) true None 146 (Some 22) (Some (32, 4242)))) 1005 22.
+Proof. exact_fail. Qed.
+(* body family *)
+Definition with_txs h txs := mkB h txs None.
+Example mut_txs_root :                 (* rule 30 *)
+  exactly ex_cfg ex_pv ex_parent (with_hdr (hdr 1010 10000000 222 21000 52 2 1 9008 1 (32, 777) true None 146 (Some 22) (Some (32, 4242)))) 1005 30.
+Proof. exact_fail. Qed.
+Example mut_tx_chain_tag :             (* rule 33 *)
+  exactly ex_cfg ex_pv ex_parent (with_txs ex_header [mkTx 9001 true false true false 38 4 32 0 0 false 21000 true None]) 1005 33.
+Proof. exact_fail. Qed.
+Example mut_tx_future_ref :            (* rule 34 *)
+  exactly ex_cfg ex_pv ex_parent (with_txs ex_header [mkTx 9001 true false true false 39 7 32 0 0 false 21000 true None]) 1005 34.
+Proof. exact_fail. Qed.
+Example mut_tx_expired :               (* rule 35 *)
+  exactly ex_cfg ex_pv ex_parent (with_txs ex_header [mkTx 9001 true false true false 39 1 4 0 0 false 21000 true None]) 1005 35.
+Proof. exact_fail. Qed.
+Example mut_tx_typed_before_galactica : (* rule 36 *)
+  exactly ex_cfg ex_pv ex_parent (with_txs ex_header [mkTx 9001 true false true false 39 4 32 81 0 false 21000 true None]) 1005 36.
+Proof. exact_fail. Qed.
+Example mut_tx_unsupported_feature :   (* rule 37 *)
+  exactly ex_cfg ex_pv ex_parent (with_txs ex_header [mkTx 9001 true false true false 39 4 32 0 2 false 21000 true None]) 1005 37.
+Proof. exact_fail. Qed.
+Example mut_tx_unused_reserved :       (* rule 37 *)
+  exactly ex_cfg ex_pv ex_parent (with_txs ex_header [mkTx 9001 true false true false 39 4 32 0 0 true 21000 true None]) 1005 37.
+Proof. exact_fail. Qed.
+(* re-execution family *)
+Example mut_tx_already_on_chain :      (* rule 40: id 8000 is on the parent's chain *)
+  exactly ex_cfg ex_pv ex_parent
+    (with_txs (hdr 1010 10000000 222 21000 52 1 1 8007 1 (32, 777) true None 146 (Some 22) (Some (32, 4242)))
+              [mkTx 8000 true false true false 39 4 32 0 0 false 21000 true None]) 1005 40.
+Proof. exact_fail. Qed.
+Example mut_tx_duplicate_in_block :    (* rule 40 *)
+  exactly ex_cfg ex_pv ex_parent
+    (with_txs (hdr 1010 10000000 222 42000 52 2 1 18009 2 (32, 777) true None 146 (Some 22) (Some (32, 4242))) [tx1; tx1]) 1005 40.
+Proof. exact_fail. Qed.
+Example mut_tx_dependency_unknown :    (* rule 42 *)
+  exactly ex_cfg ex_pv ex_parent (with_txs ex_header [mkTx 9001 true false true false 39 4 32 0 0 false 21000 true (Some 5555)]) 1005 42.
+Proof. exact_fail. Qed.
+Example mut_tx_dependency_reverted_on_chain :  (* rule 42: 8001 is on the chain, reverted *)
+  exactly ex_cfg ex_pv ex_parent (with_txs ex_header [mkTx 9001 true false true false 39 4 32 0 0 false 21000 true (Some 8001)]) 1005 42.
+Proof. exact_fail. Qed.
+Example mut_tx_dependency_reverted_in_block :  (* rule 42: tx 9009 reverts in the VM *)
+  exactly ex_cfg ex_pv ex_parent
+    (with_txs (hdr 1010 10000000 222 42000 52 2 1 18017 2 (32, 777) true None 146 (Some 22) (Some (32, 4242)))
+              [mkTx 9009 true false true false 39 4 32 0 0 false 21000 true None; mkTx 9001 true false true false 39 4 32 0 0 false 21000 true (Some 9009)]) 1005 42.
+Proof. exact_fail. Qed.
+Example mut_gas_used_plus_one :        (* rule 43 *)
+  exactly ex_cfg ex_pv ex_parent (with_hdr (hdr 1010 10000000 222 21001 52 1 1 9008 1 (32, 777) true None 146 (Some 22) (Some (32, 4242)))) 1005 43.
+Proof. exact_fail. Qed.
+Example mut_receipts_root :            (* rule 44 *)
+  exactly ex_cfg ex_pv ex_parent (with_hdr (hdr 1010 10000000 222 21000 52 1 1 9008 77 (32, 777) true None 146 (Some 22) (Some (32, 4242)))) 1005 44.
+Proof. exact_fail. Qed.
+Example mut_state_root :               (* rule 47 *)
+  exactly ex_cfg ex_pv ex_parent (with_hdr (hdr 1010 10000000 222 21000 52 1 1 9009 1 (32, 777) true None 146 (Some 22) (Some (32, 4242)))) 1005 47.
+Proof. exact_fail. Qed.
+(* over-limit gas: the block's transactions use more gas than its limit.  Here two rules fail together (gasUsed <= limit
+   cannot hold when gasUsed = executed gas > limit): covered by theorem 3a, not by 3b *)
+Example mut_receipts_root_fixed_by_table :
+  X_process ex_cfg ex_pv ex_parent (mkB (hdr 1010 10000000 222 21000 52 1 1 9008 77 (32, 777) true None 146 (Some 22) (Some (32, 4242))) [tx1] (Some 1)) 1005
+  = Accepted N 9008 [mkRc 21000 false 5].
+Proof. vm_compute. reflexivity. Qed.
+
+(* ---- after GALACTICA (fork at 3), before FINALITY (fork at 100), before VIP214 is irrelevant (0) *)
+Definition g_cfg := mkCfg 0 0 0 100 3 10 39.
+Definition g_parent := mkH 5 1000 10000000 0 7500000 50 0 1 777 0 (0, 0) false (Some 10000000000000) 146 (Some 11) (Some (0, 0)).
+Definition g_header := hdr 1010 10000000 222 21000 52 1 1 9008 1 (32, 777) false (Some 10000000000000) 146 (Some 22) (Some (32, 4242)).
+Example g_accepted : X_process g_cfg ex_pv g_parent (with_hdr g_header) 1005 = Accepted N 9008 [mkRc 21000 false 5]
+  /\ parent_sane g_cfg g_parent.
+Proof. split; [vm_compute; reflexivity | split; [reflexivity | vm_compute; discriminate]]. Qed.
+Example mut_base_fee_plus_one :        (* rule 11 *)
+  exactly g_cfg ex_pv g_parent (with_hdr (hdr 1010 10000000 222 21000 52 1 1 9008 1 (32, 777) false (Some 10000000000001) 146 (Some 22) (Some (32, 4242)))) 1005 11.
+Proof. exact_fail. Qed.
+Example mut_base_fee_missing :         (* rule 11 *)
+  exactly g_cfg ex_pv g_parent (with_hdr (hdr 1010 10000000 222 21000 52 1 1 9008 1 (32, 777) false None 146 (Some 22) (Some (32, 4242)))) 1005 11.
+Proof. exact_fail. Qed.
+Example mut_com_before_finality :      (* rule 9 *)
+  exactly g_cfg ex_pv g_parent (with_hdr (hdr 1010 10000000 222 21000 52 1 1 9008 1 (32, 777) true (Some 10000000000000) 146 (Some 22) (Some (32, 4242)))) 1005 9.
+Proof. exact_fail. Qed.
+Example mut_base_fee_before_galactica : (* rule 10, on the first configuration *)
+  exactly ex_cfg ex_pv ex_parent (with_hdr (hdr 1010 10000000 222 21000 52 1 1 9008 1 (32, 777) true (Some 10000000000000) 146 (Some 22) (Some (32, 4242)))) 1005 10.
+Proof. exact_fail. Qed.
+
+(* ---- PoS: the signer's validation has a contract-level beneficiary 999 *)
+Definition s_cands := [ mkC (mkP 11 true 60) 2 111 None; mkC (mkP 22 true 40) 1 222 (Some 999) ].
+Definition s_pv := mkPV true s_cands 100 (fun _ => 0).
+Definition s_header := hdr 1010 10000000 999 21000 10050 1 1 9009 1 (32, 777) true None 146 (Some 22) (Some (32, 4242)).
+Example s_accepted : X_process ex_cfg s_pv ex_parent (with_hdr s_header) 1005 = Accepted N 9009 [mkRc 21000 false 5].
+Proof. vm_compute. reflexivity. Qed.
+Example mut_pos_beneficiary_mismatch : (* rule 23 *)
+  exactly ex_cfg s_pv ex_parent (with_hdr (hdr 1010 10000000 998 21000 10050 1 1 9009 1 (32, 777) true None 146 (Some 22) (Some (32, 4242)))) 1005 23.
+Proof. exact_fail. Qed.
+
+(* theorem 3b applied: each of these mutants is rejected with a consensus-critical error *)
+Example single_mutation_applies :
+  (exists r, X_process ex_cfg ex_pv ex_parent (with_hdr (hdr 1000 10000000 222 21000 52 1 1 9008 1 (32, 777) true None 146 (Some 22) (Some (32, 4242)))) 1005 = Rejected N (Critical r)) /\
+  (exists r, X_process ex_cfg ex_pv ex_parent (with_hdr (hdr 1010 10000000 222 21000 52 1 1 9008 1 (32, 777) true None 146 (Some 33) (Some (32, 4242)))) 1005 = Rejected N (Critical r)) /\
+  (exists r, X_process ex_cfg ex_pv ex_parent (with_txs ex_header [mkTx 9001 true false true false 39 1 4 0 0 false 21000 true None]) 1005 = Rejected N (Critical r)).
+Proof.
+  assert (S : parent_sane ex_cfg ex_parent) by (split; [reflexivity | vm_compute; discriminate]).
+  split; [|split].
+  - apply (exactly_critical _ _ _ _ _ 1); [reflexivity | split; reflexivity | exact S | exact mut_time_equals_parent | reflexivity].
+  - apply (exactly_critical _ _ _ _ _ 20); [reflexivity | split; reflexivity | exact S | exact mut_unauthorised_signer | reflexivity].
+  - apply (exactly_critical _ _ _ _ _ 35); [reflexivity | split; reflexivity | exact S | exact mut_tx_expired | reflexivity].
+Qed.
+
+(* the classes the code reports otherwise *)
+Example other_classes :
+  X_process ex_cfg ex_pv ex_parent ex_block 999 = Rejected N Future /\
+  X_process ex_cfg ex_pv ex_parent (with_txs ex_header [mkTx 9001 true false true false 39 4 32 0 0 false 20999 true None]) 1005 = Rejected N (Other 53).
+Proof. split; vm_compute; reflexivity. Qed.
 
 Print Assumptions gas_limit_rule.
 Print Assumptions header_accept_iff.
 Print Assumptions accept_iff_rules.
+Print Assumptions rule_breach_rejected_critical.
 Print Assumptions single_mutation_rejected.
 Print Assumptions reject_class.
+Print Assumptions accepted_parent_sane.
 Print Assumptions rejected_leaves_no_trace.
+Print Assumptions single_mutation_applies.
